@@ -298,10 +298,17 @@ class Report:
 
     def check_floors(self):
         with_findings = {f.rule for f in self.findings}
+        known = load_known()
+        unlisted = [f for f in self.findings if match_known(f, known) is None]
         for rid, floor in self.floors.items():
             n = self.rule_counts.get(rid, 0)
             if rid in with_findings:
                 continue  # a rule that reports a violation is not vacuous
+            if n < floor and unlisted:
+                # the run already reports a violation that is not a known finding; the construct that breaks another rule
+                # usually is what made this rule lose instances (e.g. an unresolvable attribute)
+                self.note(f"rule {rid}: only {n} instances (< {floor}) in a run that reports violations of other rules")
+                continue
             if n < floor:
                 raise AnalysisError(
                     f"rule {rid}: only {n} instances analysed, fewer than the {floor} confirmed by hand "
